@@ -46,6 +46,8 @@ def template(name, idx):
         return bt.Strategy("t", [log, A.RunDaily(), A.WeighSpecified(s1=0.5, s2=0.25), A.Rebalance()], [s1, s2])
     if name == "perm":
         return bt.Strategy("t", [log, A.ClosePositionsAfterDates("closes"), A.RunDaily(), A.SelectThese(["a", "b", "d"]), A.SelectActive(), A.WeighEqually(), A.Rebalance()], [bt.Security("a"), bt.Security("b"), bt.Security("d")])
+    if name == "perm_random":
+        return bt.Strategy("t", [log, A.ClosePositionsAfterDates("closes"), A.RunDaily(), A.SelectAll(), A.SelectActive(), A.SelectRandomly(2), A.WeighRandomly(), A.Rebalance()], [bt.Security("a"), bt.Security("b"), bt.Security("c"), bt.Security("d")])
     if name == "momentum":
         return bt.Strategy("t", [log, A.RunWeekly(), A.SelectAll(), A.SelectMomentum(2, lookback=D(days=4)), A.WeighInvVol(lookback=D(days=20)), A.LimitDeltas(0.5), A.Rebalance()])
     if name == "overtime_nested":
@@ -218,7 +220,7 @@ def run(ctx):
                 items.append((t, [CONFIGS[0], CONFIGS[1], CONFIGS[2]], order, False))
                 if ctx.tier != "quick":
                     items.append((t, [CONFIGS[0]] * 3, order, True))
-    hs = [(t, ci, seeds) for t in (tn + ["random_decl"]) for ci in (0, 1)]
+    hs = [(t, ci, seeds) for t in (tn + ["random_decl", "perm_random"]) for ci in (0, 1)]
     ctx.bounds = {"templates": tn, "schedules": len(items), "hash_seed_cases": len(hs), "hash_seeds": seeds, "builds": kinds}
     for kind in kinds:
         for item, (status, viols, n) in ctx.run(kind, "btmc.props.c11", "schedule_case", items, chunksize=2):
